@@ -102,14 +102,18 @@ CLAIMED = {
         technique="Coq proof (diff-trick invariant, unique-keys lemma, batching lemma) + three-way correspondence",
     ),
     "C03": dict(
-        category="other",
-        text=("Line-level executable Coq model of the bigram chain (fused intersect/adjacent kernel, inner and cross-word "
-              "adjacency, same-term path, adjacency-bit merge, strategy selection) compared three-way with the real "
-              "phrase search and the spec `number of offsets where the phrase occurs` (bounds for phrases with adjacent "
-              "repeats); theorem (bigram step refinement) in progress."),
+        category="proof",
+        text=("Theorems (Props/C03.v, closed under the global context): for every corpus within the limits, every batch "
+              "size and every phrase of >= 2 terms without an immediately repeated term, the line-level model of the bigram "
+              "chain (fused intersect/adjacent kernel, inner and cross-word adjacency, adjacency-bit merge, middle-out "
+              "strategy) returns for every document the number of offsets at which the phrase occurs contiguously, hence is "
+              "positive exactly for the documents containing it; the bigram step and the chain are also stated on arbitrary "
+              "well-formed posting lists. NOT proved: the clause for phrases WITH immediate repetitions (positive iff "
+              "contained, between non-overlapping and overlapping counts): decided by the three-way check with the bounds "
+              "oracle. Check = real phrase search vs model vs spec."),
         design_ref="DESIGN.md 7 (C03)",
-        note=COMMON_NOTE + "No closed theorem for the chain yet: the decision on generated inputs is by the three-way check.",
-        technique="Coq model + three-way correspondence (proof of the bigram step in progress)",
+        note=COMMON_NOTE + "No axioms.",
+        technique="Coq proof (bigram-step refinement + chain induction on encoded postings) + three-way correspondence",
     ),
     "C05": dict(
         category="proof",
@@ -162,15 +166,18 @@ CLAIMED = {
     ),
 
     "C06": dict(
-        category="other",
-        text=("Coq model of views (rows-vector composition, FilteredPosns / physical slice handle, unique-id filtering, "
-              "dense gather, positions fill path, root document frequencies, inherited statistics) compared three-way with "
-              "the real arr[key] / take / copy / DataFrame ops followed by every query kind, against the spec `parent answer "
-              "re-indexed by the composed key with parent statistics`; keys: slices of every step sign, masks, int arrays "
-              "sorted/unsorted/duplicate/negative, depth 1..3, both avoid_copies. Commutation theorem in progress."),
+        category="proof",
+        text=("Theorems (Props/C06.v): for every corpus within the limits, both avoid_copies settings and every chain of "
+              "valid selections (any key order, repeats, depth), selection succeeds and the view's term frequencies, document "
+              "frequencies, lengths, positions, phrase frequencies (no immediately repeated term) and BM25 scores equal the "
+              "parent's answers re-indexed by the composed key, with the parent's corpus statistics (closed; score theorems "
+              "carry the Reals axioms via Flocq). NOT proved: position-ranged tf on views, phrases with immediate "
+              "repetitions, element access, and pandas' key normalisation (replicated with numpy in the harness): decided "
+              "three-way by the check (real arr[key] / take / copy / DataFrame ops followed by every query kind vs model "
+              "vs spec; slices of every step sign, masks, int arrays sorted/unsorted/duplicate/negative, depth 1..3)."),
         design_ref="DESIGN.md 7 (C06)",
-        note=COMMON_NOTE + "pandas key normalisation replicated with numpy in the harness.",
-        technique="Coq model + three-way correspondence (commutation proof in progress)",
+        note=COMMON_NOTE + "pandas key normalisation replicated with numpy in the harness. " + AX,
+        technique="Coq proof (rows-vector composition + slice/gather lemmas over index_ok) + three-way correspondence",
     ),
     "C07": dict(
         category="proof",
@@ -330,6 +337,13 @@ def main():
         "not_applicable": [{"property_id": p, "reason": NOT_YET} for p in ALL if p not in CLAIMED],
         "notes": "See DESIGN.md. known_findings.json lists open findings and fixed defects.",
     }
+    # the level each check writes into its evidence must be the level claimed here
+    import importlib
+    import sys
+    sys.path.insert(0, HERE)
+    for c in checks:
+        lvl = importlib.import_module("harness.props." + c["property_id"].lower()).LEVEL
+        assert lvl == c["level_claimed"]["category"], (c["property_id"], lvl, c["level_claimed"]["category"])
     with open(os.path.join(HERE, "MANIFEST.json"), "w") as f:
         json.dump(man, f, indent=1)
 
